@@ -77,7 +77,7 @@ def interp_left(x0, x, y=None):
     else:
         y = np.array(y)
     is_scalar = False
-    if not hasattr(x0, '__len__'):
+    if np.ndim(x0) == 0:  # Python and NumPy scalars and 0-d arrays
         is_scalar = True
         x0 = [x0]
     assert min(x0) >= x[0], (min(x0), x[0])
